@@ -818,10 +818,15 @@ Definition spec_step (code : list N) (s : pstate) : presult :=
    multiplications: Z division is far too slow under vm_compute. *)
 Definition dMask : Z := 21267647932558653966460912964485513215.   (* 2^124 - 1 *)
 (* small multipliers written on the left: Pos.mul recurses on its first argument *)
+Definition dstep (acc limb k : Z) : Z := Z.land (33 * acc + Z.land limb dMask + k) dMask.
 Definition dmix (acc v : Z) : Z :=
   (if (0 <=? v) && (v <=? dMask)
    then Z.land (33 * acc + v + 1) dMask
-   else Z.land (33 * acc + Z.land v dMask + 7 * Z.land (Z.shiftr v 124) dMask + 1) dMask)%Z.
+   else (* four limbs of 124 bits: every bit below 2^496 takes part *)
+     let v1 := Z.shiftr v 124 in
+     let v2 := Z.shiftr v1 124 in
+     let v3 := Z.shiftr v2 124 in
+     dstep (dstep (dstep (dstep acc v 1) v1 2) v2 3) v3 4)%Z.
 Definition dlist (acc : Z) (l : list Z) : Z :=
   fold_left dmix l (dmix acc (Z.of_nat (length l))).
 (* bytes are digested 15 at a time (big-endian limbs of 120 bits) *)
